@@ -505,6 +505,7 @@ func (w *SrvWorld) scheduleNext() {
 	w.K.At(at, fmt.Sprintf("op:%d:%s:%s", op.ID, op.Actor, op.Kind), func() {
 		w.prevIssue = w.K.Now()
 		w.K.Stats.Op(op.Kind)
+		w.K.OpIssued(op.ID)
 		w.exec(op)
 		w.scheduleNext()
 	})
